@@ -86,7 +86,7 @@ Example C02_example :
 Proof. vm_compute. repeat split. Qed.
 
 (** ---- insertion-order independence of [generate], end to end ---- *)
-From Elfi Require Import Graph.Denote Proofs.C03_EndToEnd Proofs.C03_Twins Proofs.C03_ModelOk Proofs.C02_Insertion.
+From Elfi Require Import Graph.Denote Proofs.C03_EndToEnd Proofs.C03_Twins Proofs.C03_ModelOk Proofs.C02_Insertion Proofs.C02_History.
 From Elfi Require Graph.Determinism.
 
 (** Two builds of one model that differ only in the ORDER in which the nodes, the edges and the
@@ -129,17 +129,46 @@ Proof. exact loaded_sort_order. Qed.
 Print Assumptions C02_loaded_sort_order.
 
 (** On the correspondence interface (Graph/Determinism.v): the model's own results for the two builds
-    pass the decidable property [Determinism.ok]; hence on every case where the implementation agrees
-    with the model, the property holds of the implementation's two runs. *)
+    and for every generate call of a history on one object pass the decidable property
+    [Determinism.ok]; hence on every case where the implementation agrees with the model, the property
+    holds of the implementation's runs.  The history [calls] is ANY list of (current net, fresh build,
+    outputs): no hypothesis relates a step to the earlier ones, because the model's generate has no
+    state besides the current source net (see [C02_generate_history_independent]). *)
 Theorem C02_model_ok :
-  forall src src' outs,
+  forall src src' outs calls,
     wfsrc src -> same_model src src' -> outputs_wf src outs -> params_distinct src ->
     Determinism.model_result src outs <> ImplErr -> Determinism.model_result src' outs <> ImplErr ->
+    Forall hcall_wf calls ->
     Determinism.ok {| Determinism.d_src1 := src; Determinism.d_src2 := src'; Determinism.d_outputs := outs;
                       Determinism.d_impl1 := Determinism.model_result src outs;
-                      Determinism.d_impl2 := Determinism.model_result src' outs |} = true.
-Proof. exact model_ok_C02. Qed.
+                      Determinism.d_impl2 := Determinism.model_result src' outs;
+                      Determinism.d_hist := map model_step calls |} = true.
+Proof. exact model_ok_C02_history. Qed.
 Print Assumptions C02_model_ok.
+
+(** Histories on ONE model object: a generate call does not depend on earlier generate calls or on
+    earlier edits of the same object beyond the object's current graph.  [generate] is a function of
+    the current source net, the outputs and the supplied values only, so for ANY history of current
+    nets (generate calls with any outputs and seeds interleaved with become / observed-data / flag /
+    parameter edits and added or removed nodes and edges) the k-th call returns the values and the call
+    log that a freshly built model with the same nodes, edges and observed data (inserted in any order)
+    returns: [C02_generate_insertion_independent] applied to the current net of the step. *)
+Theorem C02_generate_history_independent :
+  forall calls : list hcall,
+    Forall hcall_wf calls ->
+    forall k src src' outs, nth_error calls k = Some (src, src', outs) ->
+      Determinism.model_result src outs = Determinism.model_result src' outs.
+Proof. exact generate_history_independent. Qed.
+Print Assumptions C02_generate_history_independent.
+
+(** The decidable property implies the Prop-level statement on the implementation's results: the two
+    builds returned equal values and call logs, and so did every history step and its fresh build. *)
+Theorem C02_ok_sound :
+  forall c, Determinism.ok c = true ->
+    Determinism.d_impl1 c = Determinism.d_impl2 c
+    /\ forall s, In s (Determinism.d_hist c) -> Determinism.h_impl s = Determinism.h_impl_fresh s.
+Proof. exact ok_sound_C02. Qed.
+Print Assumptions C02_ok_sound.
 
 (** Non-vacuity: a five-node model with twins (prior -> simulator with data -> two summaries ->
     discrepancy using the observed tuple) built in two insertion orders: nodes and edges permuted
@@ -236,4 +265,52 @@ Proof.
   split; [vm_compute; reflexivity|]. split.
   - unfold same_model, dupA, dupB, insA. cbn [s_nodes s_edges s_observed]. repeat split; perm_lists.
   - split; [vm_compute; reflexivity | vm_compute; discriminate].
+Qed.
+
+(** Non-vacuity of the history statements: generate on [insA], then a count-preserving in-place edit
+    (the prior mu is replaced through become by a prior with another operation: same number of nodes
+    and edges; the re-inserted node moves to the end of the node list and the observed data changes),
+    then generate again with the same outputs.  Both calls are well-formed, each equals its fresh build
+    (another insertion order), and the second call does NOT return what the first returned. *)
+Definition insA2 : snet :=
+  {| s_nodes := [("sim"%string, ins_st "sim"%string true true false true);
+                 ("s1"%string, ins_st "s1"%string false true false false);
+                 ("s2"%string, ins_st "s2"%string false true false false);
+                 ("d"%string, ins_st "d"%string false false true false);
+                 ("mu"%string, ins_st "mu_v2"%string true false false true)];
+     s_edges := [("sim"%string, "s1"%string, PInt 0);
+                 ("sim"%string, "s2"%string, PInt 0); ("s1"%string, "d"%string, PInt 0);
+                 ("s2"%string, "d"%string, PInt 1); ("mu"%string, "sim"%string, PInt 0)];
+     s_observed := [("sim"%string, VConst 8)] |}.
+Definition insB2 : snet :=
+  {| s_nodes := [("d"%string, ins_st "d"%string false false true false);
+                 ("mu"%string, ins_st "mu_v2"%string true false false true);
+                 ("s2"%string, ins_st "s2"%string false true false false);
+                 ("sim"%string, ins_st "sim"%string true true false true);
+                 ("s1"%string, ins_st "s1"%string false true false false)];
+     s_edges := [("s2"%string, "d"%string, PInt 1); ("sim"%string, "s2"%string, PInt 0);
+                 ("mu"%string, "sim"%string, PInt 0); ("s1"%string, "d"%string, PInt 0);
+                 ("sim"%string, "s1"%string, PInt 0)];
+     s_observed := [("sim"%string, VConst 8)] |}.
+Definition hist_calls : list hcall :=
+  [(insA, insB, ["d"%string]); (insA2, insB2, ["d"%string]); (insA, insB, ["mu"%string; "d"%string])].
+
+Lemma insAB2_same_model : same_model insA2 insB2.
+Proof. unfold same_model, insA2, insB2. cbn [s_nodes s_edges s_observed]. repeat split; perm_lists. Qed.
+
+Example C02_history_example :
+  Forall hcall_wf hist_calls
+  /\ List.length (s_nodes insA) = List.length (s_nodes insA2)
+  /\ List.length (s_edges insA) = List.length (s_edges insA2)
+  /\ Determinism.model_result insA ["d"%string] <> Determinism.model_result insA2 ["d"%string]
+  /\ forallb Determinism.step_ok (map model_step hist_calls) = true.
+Proof.
+  assert (H : Forall hcall_wf hist_calls).
+  { unfold hist_calls.
+    apply Forall_cons; [|apply Forall_cons; [|apply Forall_cons; [|apply Forall_nil]]].
+    - apply hcall_wf_b_sound; try (vm_compute; reflexivity); try (vm_compute; discriminate). exact insAB_same_model.
+    - apply hcall_wf_b_sound; try (vm_compute; reflexivity); try (vm_compute; discriminate). exact insAB2_same_model.
+    - apply hcall_wf_b_sound; try (vm_compute; reflexivity); try (vm_compute; discriminate). exact insAB_same_model. }
+  split; [exact H|]. split; [reflexivity|]. split; [reflexivity|].
+  split; [vm_compute; discriminate|]. now apply model_history_ok.
 Qed.
